@@ -259,7 +259,7 @@ def hashFn (t : Val) : Str → Str :=
 /-- **The flat AST the property describes**: pre-order dump of the tweaked tree (body last in every
 definition), `_hash` = rank of first occurrence of the context-free expression. -/
 def specFlatten (t : Val) : List Str :=
-  let t1 := onTheFly specCfg (reCanon t)
+  let t1 := prep specCfg (reCanon t)
   dumpP (hashFn t1) [] [] (tweak [] t1)
 
 end Paroxy.Flat
